@@ -44,7 +44,14 @@ def _rand_cfg(rnd, n):
             c['dur'] += 1           # (completion exactly at the timeout is a tie: excluded)
         if asyn == 'never':
             c['dur'] = 99
+        # the library's own user of the asynchronous initialisation: a ValuePoll whose function
+        # yields its first valid value after `dur` polls (instead of a probe block)
+        c['lib'] = asyn in ('ok', 'never') and c['restore'] == 'none' and c['tmo'] > 0 and rnd.random() < 0.5
         cfg.append(c)
+    targets = {c['edge'] for c in cfg}
+    for b, c in enumerate(cfg, 1):
+        if b in targets:
+            c['lib'] = False        # (a ValuePoll accepts no 'put' events)
     return cfg
 
 
@@ -130,6 +137,21 @@ def execute(stim):
     class PS(Mixin, edzed.AddonPersistence, edzed.SBlock):
         _event_put = handler
 
+    class VP(Mixin, edzed.ValuePoll):
+        async def init_async(self):
+            lines.append({'ev': 'call', 'b': self.idx, 'r': 'async'})
+            await super().init_async()
+
+    def poll_func(conf, idx):
+        st = {'n': 0}
+
+        async def poll():
+            st['n'] += 1
+            if st['n'] == conf['dur'] + 1:
+                await asyncio.sleep(order.index(idx) * 1e-8)     # (start order, see above)
+            return 'async' if conf['asyn'] == 'ok' and st['n'] > conf['dur'] else edzed.UNDEF
+        return poll
+
     def factory(loop, clock):
         async def main():
             circuit = edzed.get_circuit()
@@ -147,6 +169,9 @@ def execute(stim):
                     kw['initdef'] = b
                 if c['edge']:
                     kw['on_output'] = edzed.Event(f'b{c["edge"]}', 'put')
+                if c.get('lib'):
+                    blocks[b] = VP(f'b{b}', conf=c, idx=b, func=poll_func(c, b), interval=TICK, **kw)
+                    continue
                 blocks[b] = cls(f'b{b}', conf=c, idx=b, persistent=c['restore'] != 'none', **kw)
                 if c['restore'] != 'none':
                     storage[blocks[b].key] = 'S'
